@@ -264,6 +264,22 @@ def D23():
     return holds, f"class Color(str, Enum): convert(Color.RED, Color) -> {a!r}; into_data(Color.RED, Union[int, Color]) -> {b!r}"
 
 
+def D24():
+    import pane
+    from pane.annotations import Tagged
+    class V1(pane.PaneBase):
+        kind: t.Literal['a'] = 'a'
+        y: int = 0
+    class V2(pane.PaneBase):
+        kind: t.Literal['b'] = 'b'
+    T = t.Annotated[t.Union[V1, V2], Tagged('kind', ('t', 'c'))]
+    data = collections.defaultdict(int, {'t': 'a', 'd': {'y': 1}})
+    before = dict(data)
+    r = _outcome(lambda: pane.from_data(data, T))
+    holds = dict(data) == before and r[0] == 'raise' and r[1] == 'ConvertError'
+    return holds, f"adjacently tagged union on a defaultdict lacking the content key: outcome {r[:2]!r}; input afterwards {dict(data)!r}"
+
+
 # ---- known findings (status=known): each returns holds=False while the finding reproduces -------------
 def N1():
     import pane
